@@ -52,19 +52,14 @@ variable (b : Block K) (cells : Nat → Cell K) (ph : Photon K) (inDir : Nat)
 `nx + ny + nz + 1` evaluations of that condition (every pass that does not end the loop moves
 at least one index one step in its direction of travel). -/
 theorem fuel_sufficient (h : Hyp b cells ph inDir) :
-    (interact b cells ph inDir).finished = true := by
-  rw [finished_eq]
-  have hr := init_inRange b cells ph inDir h.valid h.start
-  refine (march_finishes b cells ph h.valid _ _ _ (init_inv b cells ph inDir h.valid h.start)).2
-    (init_tau b cells ph inDir h) hr ?_
-  have := phi_le b ph (initSt b ph inDir) hr
-  unfold fuel; push_cast; omega
+    (interact b cells ph inDir).finished = true :=
+  trav_fuel_sufficient b cells ph _ h.valid (entry_interact b cells ph inDir h)
 
 /-- the loop ended by its own condition: target reached or index outside -/
 theorem last_done (h : Hyp b cells ph inDir) :
     ¬ ((interact b cells ph inDir).last.tauDone < ph.tau ∧
         InRange b.n (interact b cells ph inDir).last.idx) :=
-  march_done b cells ph _ _ (fuel_sufficient b cells ph inDir h)
+  trav_last_done b cells ph _ h.valid (entry_interact b cells ph inDir h)
 
 /-- **Path sum**: the final position is the (pinned) start position plus `Σ path · direction`,
 per coordinate; in absolute coordinates as well. -/
@@ -73,24 +68,12 @@ theorem path_sum (h : Hyp b cells ph inDir) (a : Ax) :
         (initSt b ph inDir).pos.get a + pathSum (interact b cells ph inDir).visits * ph.dir.get a
     ∧ (interact b cells ph inDir).pos.get a =
         ((initSt b ph inDir).pos.get a + b.anchor.get a)
-          + pathSum (interact b cells ph inDir).visits * ph.dir.get a := by
-  have hl := (last_inv b cells ph inDir h).onLine a
-  rw [visits_eq, pathSum_reverse, pos_eq, hl]
-  exact ⟨rfl, by ring⟩
+          + pathSum (interact b cells ph inDir).visits * ph.dir.get a :=
+  trav_path_sum b cells ph _ h.valid (entry_interact b cells ph inDir h) a
 
 /-- every credited path length is non-negative -/
-theorem path_nonneg (h : Hyp b cells ph inDir) : ∀ v ∈ (interact b cells ph inDir).visits, 0 ≤ v.path := by
-  have hs := (last_inv b cells ph inDir h).segs
-  rw [visits_eq]
-  intro v hv
-  rw [List.mem_reverse] at hv
-  generalize (interact b cells ph inDir).last.out = l at hs hv
-  induction l with
-  | nil => cases hv
-  | cons u rest ih =>
-    rcases List.mem_cons.mp hv with rfl | hv
-    · exact hs.1.2.2.1
-    · exact ih hs.2 hv
+theorem path_nonneg (h : Hyp b cells ph inDir) : ∀ v ∈ (interact b cells ph inDir).visits, 0 ≤ v.path :=
+  trav_path_nonneg b cells ph _ h.valid (entry_interact b cells ph inDir h)
 
 /-- hence **Σ path = straight-line distance** for a unit direction (sqrt-free form:
 `Σ path ≥ 0` and `(Σ path)² = |final − start|²`) -/
@@ -100,35 +83,16 @@ theorem path_sum_is_distance (h : Hyp b cells ph inDir)
     pathSum (interact b cells ph inDir).visits ^ 2 =
       ((interact b cells ph inDir).last.pos.x - (initSt b ph inDir).pos.x) ^ 2
       + ((interact b cells ph inDir).last.pos.y - (initSt b ph inDir).pos.y) ^ 2
-      + ((interact b cells ph inDir).last.pos.z - (initSt b ph inDir).pos.z) ^ 2 := by
-  constructor
-  · have := path_nonneg b cells ph inDir h
-    unfold pathSum
-    apply List.sum_nonneg
-    intro x hx
-    obtain ⟨v, hv, rfl⟩ := List.mem_map.mp hx
-    exact this v hv
-  · have hx := (path_sum b cells ph inDir h .x).1
-    have hy := (path_sum b cells ph inDir h .y).1
-    have hz := (path_sum b cells ph inDir h .z).1
-    simp only [V3.get] at hx hy hz
-    rw [hx, hy, hz]
-    have : ∀ (S dx dy dz p q r : K), dx ^ 2 + dy ^ 2 + dz ^ 2 = 1 →
-        S ^ 2 = (p + S * dx - p) ^ 2 + (q + S * dy - q) ^ 2 + (r + S * dz - r) ^ 2 := by
-      intro S dx dy dz p q r hu
-      have : (p + S * dx - p) ^ 2 + (q + S * dy - q) ^ 2 + (r + S * dz - r) ^ 2
-          = S ^ 2 * (dx ^ 2 + dy ^ 2 + dz ^ 2) := by ring
-      rw [this, hu, mul_one]
-    exact this _ _ _ _ _ _ _ hunit
+      + ((interact b cells ph inDir).last.pos.z - (initSt b ph inDir).pos.z) ^ 2 :=
+  trav_path_sum_is_distance b cells ph _ h.valid (entry_interact b cells ph inDir h) hunit
 
 /-- **Every visited cell contains its segment**: in order of traversal, with `S` the path
 travelled before the visit, the visited cell is a real cell of the block (`InRange`, one-index
 = `get_one_index`), and both end points `start + S·d` and `start + (S + path)·d` lie in the
 closed cell — the cell is convex, so the whole segment does. -/
 theorem segments_in_cells (h : Hyp b cells ph inDir) :
-    SegsFwd b ph (initSt b ph inDir).pos 0 (interact b cells ph inDir).visits := by
-  rw [visits_eq]
-  exact segs_reverse b ph _ _ (last_inv b cells ph inDir h).segs
+    SegsFwd b ph (initSt b ph inDir).pos 0 (interact b cells ph inDir).visits :=
+  trav_segments_in_cells b cells ph _ h.valid (entry_interact b cells ph inDir h)
 
 /-- the exit classification of a packet that leaves is one of `1..26` -/
 theorem outputDirection_valid (h : Hyp b cells ph inDir)
@@ -136,40 +100,13 @@ theorem outputDirection_valid (h : Hyp b cells ph inDir)
     1 ≤ outputDirection b.n (interact b cells ph inDir).last.idx ∧
     outputDirection b.n (interact b cells ph inDir).last.idx < 27 ∧
     ∀ a, pinKind (outputDirection b.n (interact b cells ph inDir).last.idx).toNat a
-      = zone (b.n.get a) ((interact b cells ph inDir).last.idx.get a) := by
-  have hI := last_inv b cells ph inDir h
-  set i := (interact b cells ph inDir).last.idx with hi
-  unfold outputDirection
-  rw [exitMask_eq b.n i h.valid.n_pos (fun a => (hI.range a).1)]
-  have hz : ¬ ((zone b.n.x i.x) = 0 ∧ (zone b.n.y i.y) = 0 ∧ (zone b.n.z i.z) = 0) := by
-    intro ⟨hx, hy, hz⟩
-    apply hout
-    intro a
-    cases a <;> simp only [V3.get] <;> [skip; skip; skip]
-    · unfold zone at hx; split_ifs at hx <;> omega
-    · unfold zone at hy; split_ifs at hy <;> omega
-    · unfold zone at hz; split_ifs at hz <;> omega
-  have := tables_exit ⟨_, zone_lt b.n.x i.x⟩ ⟨_, zone_lt b.n.y i.y⟩ ⟨_, zone_lt b.n.z i.z⟩ hz
-  refine ⟨this.1, this.2.1, fun a => ?_⟩
-  cases a
-  · exact this.2.2.1
-  · exact this.2.2.2.1
-  · exact this.2.2.2.2
+      = zone (b.n.get a) ((interact b cells ph inDir).last.idx.get a) :=
+  trav_outputDirection_valid b cells ph _ h.valid (entry_interact b cells ph inDir h) hout
 
 /-- the packet is reported INSIDE exactly when the loop ended because the target was reached -/
 theorem outDir_zero_iff (h : Hyp b cells ph inDir) :
-    (interact b cells ph inDir).outDir = 0 ↔ ph.tau ≤ (interact b cells ph inDir).last.tauDone := by
-  show (if ph.tau ≤ (interact b cells ph inDir).last.tauDone then ((Gen.TDC02.dirInside : Nat) : Int)
-      else outputDirection b.n (interact b cells ph inDir).last.idx) = 0 ↔ _
-  by_cases ht : ph.tau ≤ (interact b cells ph inDir).last.tauDone
-  · rw [if_pos ht]; exact ⟨fun _ => ht, fun _ => rfl⟩
-  · rw [if_neg ht]
-    have hout : ¬ InRange b.n (interact b cells ph inDir).last.idx := fun hr =>
-      last_done b cells ph inDir h ⟨not_le.mp ht, hr⟩
-    have := (outputDirection_valid b cells ph inDir h hout).1
-    constructor
-    · intro h0; omega
-    · intro h0; exact absurd h0 ht
+    (interact b cells ph inDir).outDir = 0 ↔ ph.tau ≤ (interact b cells ph inDir).last.tauDone :=
+  trav_outDir_zero_iff b cells ph _ h.valid (entry_interact b cells ph inDir h)
 
 /-- **Optical depth accounting.**  A packet that leaves has used up `Σ κ·path` and keeps
 `τ_target − Σ κ·path > 0`; a packet that stops inside has deposited *exactly* `τ_target`
@@ -181,35 +118,19 @@ theorem tau_account (h : Hyp b cells ph inDir) :
       ∧ 0 < (interact b cells ph inDir).tauLeft) ∧
     ((interact b cells ph inDir).outDir = 0 →
       tauSum cells ph (interact b cells ph inDir).visits = ph.tau
-      ∧ (interact b cells ph inDir).tauLeft ≤ 0) := by
-  have hI := last_inv b cells ph inDir h
-  have hz := outDir_zero_iff b cells ph inDir h
-  rw [visits_eq, tauSum_reverse, tauLeft_eq]
-  constructor
-  · intro hn
-    have hlt := not_le.mp (fun ht => hn (hz.mpr ht))
-    rw [← hI.tauRun hlt]
-    exact ⟨rfl, by linarith⟩
-  · intro h0
-    have hge := hz.mp h0
-    exact ⟨hI.tauStop hge, by linarith⟩
+      ∧ (interact b cells ph inDir).tauLeft ≤ 0) :=
+  trav_tau_account b cells ph _ h.valid (entry_interact b cells ph inDir h)
 
 /-- **Estimators**: each visit adds `path·σ·w` to the mean-intensity counter of every ion and
 `path·σ·w·(ν − ν₀)` to the heating counters (ν₀ = 3.288e15 Hz for H, 5.948e15 Hz for He). -/
 theorem estimators (h : Hyp b cells ph inDir) :
-    ∀ v ∈ (interact b cells ph inDir).visits, EstOK ph v := by
-  rw [visits_eq]
-  intro v hv
-  rw [List.mem_reverse] at hv
-  have := march_induct b cells ph (fun s => ∀ v ∈ s.out, EstOK ph v)
-    (fun s hs _ _ => step_est b cells ph s hs) (fuel b.n) (initSt b ph inDir)
-    (fun v hv => by cases hv)
-  exact this v hv
+    ∀ v ∈ (interact b cells ph inDir).visits, EstOK ph v :=
+  trav_estimators b cells ph _ h.valid (entry_interact b cells ph inDir h)
 
-/-- optical depth of the whole line from the start to the block boundary: what the same march
-accumulates when the optical depth test is removed -/
+/-- optical depth of the whole line from the (pinned) start to the block boundary: what the loop of
+`compute_optical_depth` accumulates from the loop-entry state of `interact` -/
 def fullTau (b : Block K) (cells : Nat → Cell K) (ph : Photon K) (inDir : Nat) : K :=
-  (marchFree b cells ph (fuel b.n) (initSt b ph inDir)).1.tauDone
+  fullTauFrom b cells ph (initSt b ph inDir)
 
 /-- `fullTau` really is the sum over the whole line: the free march ends outside the block
 within the fuel, its visits satisfy the segment property, it is on the line, its optical depth
@@ -219,27 +140,14 @@ theorem fullTau_is_line_sum (h : Hyp b cells ph inDir) :
     r.2 = true ∧ ¬ InRange b.n r.1.idx ∧ fullTau b cells ph inDir = tauSum cells ph r.1.out.reverse
       ∧ SegsFwd b ph (initSt b ph inDir).pos 0 r.1.out.reverse
       ∧ (∀ a, r.1.pos.get a = (initSt b ph inDir).pos.get a + pathSum r.1.out.reverse * ph.dir.get a)
-      ∧ OutFaces b ph r.1 := by
-  intro r
-  have hI0 := init_inv b cells ph inDir h.valid h.start
-  have hF0 := inv_to_invF b cells ph _ _ hI0 (init_tau b cells ph inDir h)
-  have hr := init_inRange b cells ph inDir h.valid h.start
-  have hfin : r.2 = true := by
-    refine (marchFree_finishes b cells ph h.valid _ _ _ hF0).2 hr ?_
-    have := phi_le b ph (initSt b ph inDir) hr
-    unfold fuel; push_cast; omega
-  have hF := (marchFree_inv b cells ph h.valid _ (fuel b.n) _ hF0).1
-  refine ⟨hfin, marchFree_done b cells ph _ _ hfin, ?_, segs_reverse b ph _ _ hF.segs, fun a => ?_, hF.outFaces⟩
-  · rw [tauSum_reverse]; exact hF.tauAcc
-  · rw [pathSum_reverse]; exact hF.onLine a
+      ∧ OutFaces b ph r.1 :=
+  trav_fullTau_is_line_sum b cells ph _ h.valid (entry_interact b cells ph inDir h)
 
 /-- **The packet stops inside the block exactly when its target optical depth is reached on
 the line through the block.** -/
 theorem stops_inside_iff (h : Hyp b cells ph inDir) :
-    (interact b cells ph inDir).outDir = 0 ↔ ph.tau ≤ fullTau b cells ph inDir := by
-  rw [outDir_zero_iff b cells ph inDir h]
-  exact march_vs_free b cells ph h.valid _ _ _ (init_inv b cells ph inDir h.valid h.start)
-    (init_tau b cells ph inDir h)
+    (interact b cells ph inDir).outDir = 0 ↔ ph.tau ≤ fullTau b cells ph inDir :=
+  trav_stops_inside_iff b cells ph _ h.valid (entry_interact b cells ph inDir h)
 
 /-- **Exit geometry.**  A packet that leaves gets a classification `1..26`; reading the
 classification the way `update_photon_position` does (`pinKind`: 1 = lower face, 2 = upper face,
@@ -259,75 +167,273 @@ theorem exit_geometric (h : Hyp b cells ph inDir) (hout : (interact b cells ph i
         (0 < ph.dir.get a → (interact b cells ph inDir).last.pos.get a < top b a) ∧
         (ph.dir.get a < 0 → 0 < (interact b cells ph inDir).last.pos.get a))) ∧
     compatOut (interact b cells ph inDir).outDir.toNat (sgnOf ph.dir.x) (sgnOf ph.dir.y) (sgnOf ph.dir.z)
-      = true := by
-  have hI := last_inv b cells ph inDir h
-  have hnt : ¬ ph.tau ≤ (interact b cells ph inDir).last.tauDone :=
-    fun ht => hout ((outDir_zero_iff b cells ph inDir h).mpr ht)
-  have hnr : ¬ InRange b.n (interact b cells ph inDir).last.idx :=
-    fun hr => last_done b cells ph inDir h ⟨not_le.mp hnt, hr⟩
-  have hdir : (interact b cells ph inDir).outDir
-      = outputDirection b.n (interact b cells ph inDir).last.idx := by
-    show (if ph.tau ≤ (interact b cells ph inDir).last.tauDone then _ else _) = _
-    rw [if_neg hnt]; rfl
-  obtain ⟨hv1, hv2, hv3⟩ := outputDirection_valid b cells ph inDir h hnr
-  have hstrict : Strict b ph (interact b cells ph inDir).last := by
-    rcases hI.strict with hs | hs | hs
-    · exact hs
-    · exact absurd hs hnr
-    · exact absurd hs hnt
-  have hzone : ∀ (n : Nat) (i : Int), 0 < n →
-      (zone n i = 1 → i < 0) ∧ (zone n i = 2 → (n : Int) ≤ i) ∧ (zone n i = 0 → 0 ≤ i ∧ i < (n : Int)) := by
-    intro n i hn
-    unfold zone
-    refine ⟨fun hk => ?_, fun hk => ?_, fun hk => ?_⟩
-    · split_ifs at hk <;> omega
-    · split_ifs at hk <;> omega
-    · split_ifs at hk <;> omega
-  rw [hdir]
-  refine ⟨hv1, hv2, fun a => ⟨fun hk => ?_, fun hk => ?_, fun hk => ?_⟩, ?_⟩
-  · rw [hv3 a] at hk
-    have := (hI.outFaces a).1 ((hzone _ _ (h.valid.n_pos a)).1 hk)
-    exact ⟨this.2, this.1⟩
-  · rw [hv3 a] at hk
-    have := (hI.outFaces a).2 ((hzone _ _ (h.valid.n_pos a)).2.1 hk)
-    exact ⟨this.2, this.1⟩
-  · rw [hv3 a] at hk
-    obtain ⟨h0, h1⟩ := (hzone _ _ (h.valid.n_pos a)).2.2 hk
-    have hc := hI.inCell a
-    have hcs := h.valid.cs_pos a
-    have hs := hstrict a h0 h1
-    have h0K : (0 : K) ≤ ((interact b cells ph inDir).last.idx.get a : K) := by exact_mod_cast h0
-    have h1K : ((interact b cells ph inDir).last.idx.get a : K) + 1 ≤ (b.n.get a : K) := by
-      have : (interact b cells ph inDir).last.idx.get a + 1 ≤ (b.n.get a : Int) := by omega
-      exact_mod_cast this
-    refine ⟨?_, ?_, hs.1, hs.2⟩
-    · nlinarith [hc.1]
-    · rw [top_eq]; nlinarith [hc.2]
-  · -- compatibility with the direction, from the generated table
-    have hsx : ∀ a, (zone (b.n.get a) ((interact b cells ph inDir).last.idx.get a) = 1 →
-          sgnOf (ph.dir.get a) = 0) ∧
-        (zone (b.n.get a) ((interact b cells ph inDir).last.idx.get a) = 2 →
-          sgnOf (ph.dir.get a) = 2) := fun a =>
-      ⟨fun hk => sgnOf_neg ((hI.outFaces a).1 ((hzone _ _ (h.valid.n_pos a)).1 hk)).1,
-       fun hk => sgnOf_pos ((hI.outFaces a).2 ((hzone _ _ (h.valid.n_pos a)).2.1 hk)).1⟩
-    unfold outputDirection
-    rw [exitMask_eq b.n _ h.valid.n_pos (fun a => (hI.range a).1)]
-    exact tables_compat_out ⟨_, zone_lt _ _⟩ ⟨_, zone_lt _ _⟩ ⟨_, zone_lt _ _⟩
-      ⟨_, sgnOf_lt ph.dir.x⟩ ⟨_, sgnOf_lt ph.dir.y⟩ ⟨_, sgnOf_lt ph.dir.z⟩
-      (hsx .x).1 (hsx .x).2 (hsx .y).1 (hsx .y).2 (hsx .z).1 (hsx .z).2
+      = true :=
+  trav_exit_geometric b cells ph _ h.valid (entry_interact b cells ph inDir h) hout
 
 /-- corollary: a block without opacity on the line is always crossed -/
 theorem transparent_block_is_crossed (h : Hyp b cells ph inDir) (h0 : ∀ c, kappa (cells c) ph = 0) :
-    (interact b cells ph inDir).outDir ≠ 0 := by
-  intro hz
-  have := ((tau_account b cells ph inDir h).2 hz).1
-  have hsum : ∀ l : List (Visit K), tauSum cells ph l = 0 := by
-    intro l
-    induction l with
-    | nil => rfl
-    | cons v rest ih => rw [tauSum_cons, ih, h0]; ring
-  rw [hsum] at this
-  exact absurd h.valid.tau_pos (by rw [← this]; exact lt_irrefl _)
+    (interact b cells ph inDir).outDir ≠ 0 :=
+  trav_transparent_block_is_crossed b cells ph _ h.valid (entry_interact b cells ph inDir h) h0
+
+/-! #### the counters of the cells after a traversal -/
+
+/-- sum of the increments `f` of the visits made to cell `c` -/
+def incSum (f : Visit K → K) (vs : List (Visit K)) (c : Nat) : K :=
+  ((vs.filter (fun v => v.cell.toNat = c)).map f).sum
+
+/-- **Counters accumulate**: after the visits `vs` every counter of every cell is its old value
+plus the sum of the increments of the visits made to that cell (`+=` on whatever was there). -/
+theorem deposit_spec (ctr : Nat → Counters K) (vs : List (Visit K)) (c : Nat) :
+    (deposit ctr vs c).jH = (ctr c).jH + incSum (·.jH) vs c ∧
+    (deposit ctr vs c).jHe = (ctr c).jHe + incSum (·.jHe) vs c ∧
+    (deposit ctr vs c).jX = (ctr c).jX + incSum (·.jX) vs c ∧
+    (deposit ctr vs c).hH = (ctr c).hH + incSum (·.hH) vs c ∧
+    (deposit ctr vs c).hHe = (ctr c).hHe + incSum (·.hHe) vs c := by
+  induction vs generalizing ctr with
+  | nil => simp [deposit, incSum]
+  | cons v rest ih =>
+    have hstep : deposit ctr (v :: rest) =
+        deposit (fun c => if c = v.cell.toNat then (ctr c).add v else ctr c) rest := rfl
+    rw [hstep]
+    have := ih (fun c => if c = v.cell.toNat then (ctr c).add v else ctr c)
+    by_cases hc : c = v.cell.toNat
+    · subst hc
+      have hf : ∀ f : Visit K → K,
+          incSum f (v :: rest) v.cell.toNat = f v + incSum f rest v.cell.toNat := fun f => by
+        unfold incSum; rw [List.filter_cons_of_pos (by simp)]; simp
+      simp only [if_true, Counters.add] at this
+      simp only [hf]
+      refine ⟨?_, ?_, ?_, ?_, ?_⟩
+      · exact this.1.trans (by ring)
+      · exact this.2.1.trans (by ring)
+      · exact this.2.2.1.trans (by ring)
+      · exact this.2.2.2.1.trans (by ring)
+      · exact this.2.2.2.2.trans (by ring)
+    · have hf : ∀ f : Visit K → K, incSum f (v :: rest) c = incSum f rest c := fun f => by
+        unfold incSum; rw [List.filter_cons_of_neg (by simpa using fun h => hc h.symm)]
+      simp only [hc, if_false] at this
+      simp only [hf]
+      exact this
+
+/-- a cell the traversal did not visit keeps its counters -/
+theorem deposit_unvisited (ctr : Nat → Counters K) (vs : List (Visit K)) (c : Nat)
+    (hc : ∀ v ∈ vs, v.cell.toNat ≠ c) : deposit ctr vs c = ctr c := by
+  induction vs generalizing ctr with
+  | nil => rfl
+  | cons v rest ih =>
+    have hstep : deposit ctr (v :: rest) =
+        deposit (fun c => if c = v.cell.toNat then (ctr c).add v else ctr c) rest := rfl
+    rw [hstep, ih _ (fun u hu => hc u (List.mem_cons_of_mem _ hu))]
+    have : c ≠ v.cell.toNat := fun h => hc v (List.mem_cons_self) h.symm
+    simp [this]
+
+/-- **Estimators after `interact`**: every counter of every cell has grown by exactly
+`weight × cross-section × (path lengths credited to that cell)` — times the excess photon
+energy for the heating terms — on top of what earlier packets left there. -/
+theorem counters_after_interact (h : Hyp b cells ph inDir) (ctr : Nat → Counters K) (c : Nat) :
+    (deposit ctr (interact b cells ph inDir).visits c).jH
+      = (ctr c).jH + incSum (fun v => v.path * ph.sigH * ph.w) (interact b cells ph inDir).visits c ∧
+    (deposit ctr (interact b cells ph inDir).visits c).jHe
+      = (ctr c).jHe + incSum (fun v => v.path * ph.sigHe * ph.w) (interact b cells ph inDir).visits c ∧
+    (deposit ctr (interact b cells ph inDir).visits c).jX
+      = (ctr c).jX + incSum (fun v => v.path * ph.sigX * ph.w) (interact b cells ph inDir).visits c ∧
+    (deposit ctr (interact b cells ph inDir).visits c).hH
+      = (ctr c).hH + incSum (fun v => v.path * ph.sigH * ph.w * (ph.nu - 3.288e15))
+          (interact b cells ph inDir).visits c ∧
+    (deposit ctr (interact b cells ph inDir).visits c).hHe
+      = (ctr c).hHe + incSum (fun v => v.path * ph.sigHe * ph.w * (ph.nu - 5.948e15))
+          (interact b cells ph inDir).visits c := by
+  have he := estimators b cells ph inDir h
+  have hcong : ∀ (f g : Visit K → K), (∀ v ∈ (interact b cells ph inDir).visits, f v = g v) →
+      incSum f (interact b cells ph inDir).visits c = incSum g (interact b cells ph inDir).visits c := by
+    intro f g hfg
+    unfold incSum
+    congr 1
+    apply List.map_congr_left
+    intro v hv
+    exact hfg v (List.mem_of_mem_filter hv)
+  obtain ⟨d1, d2, d3, d4, d5⟩ := deposit_spec ctr (interact b cells ph inDir).visits c
+  refine ⟨?_, ?_, ?_, ?_, ?_⟩
+  · rw [d1, hcong _ _ (fun v hv => (he v hv).1)]
+  · rw [d2, hcong _ _ (fun v hv => (he v hv).2.1)]
+  · rw [d3, hcong _ _ (fun v hv => (he v hv).2.2.1)]
+  · rw [d4, hcong _ _ (fun v hv => (he v hv).2.2.2.1)]
+  · rw [d5, hcong _ _ (fun v hv => (he v hv).2.2.2.2)]
+
+/-! #### `propagate`: the same traversal without pinning and without counters -/
+
+/-- `propagate` terminates (same bound) -/
+theorem propagate_fuel_sufficient (h : HypNoPin b cells ph inDir) :
+    (propagate b cells ph inDir).finished = true :=
+  trav_fuel_sufficient b cells ph _ h.valid (entry_noPin b cells ph inDir h)
+
+/-- path sum of `propagate`: final = handed-over position + `Σ path · direction`
+(`visits` = ghost record of the passes), relative and absolute -/
+theorem propagate_path_sum (h : HypNoPin b cells ph inDir) (a : Ax) :
+    (propagate b cells ph inDir).last.pos.get a =
+        (initStNoPin b ph inDir).pos.get a + pathSum (propagate b cells ph inDir).visits * ph.dir.get a
+    ∧ (propagate b cells ph inDir).pos.get a =
+        ((initStNoPin b ph inDir).pos.get a + b.anchor.get a)
+          + pathSum (propagate b cells ph inDir).visits * ph.dir.get a :=
+  trav_path_sum b cells ph _ h.valid (entry_noPin b cells ph inDir h) a
+
+theorem propagate_segments_in_cells (h : HypNoPin b cells ph inDir) :
+    SegsFwd b ph (initStNoPin b ph inDir).pos 0 (propagate b cells ph inDir).visits :=
+  trav_segments_in_cells b cells ph _ h.valid (entry_noPin b cells ph inDir h)
+
+/-- optical depth accounting of `propagate` (as `tau_account`) -/
+theorem propagate_tau_account (h : HypNoPin b cells ph inDir) :
+    ((propagate b cells ph inDir).outDir ≠ 0 →
+      (propagate b cells ph inDir).tauLeft = ph.tau - tauSum cells ph (propagate b cells ph inDir).visits
+      ∧ 0 < (propagate b cells ph inDir).tauLeft) ∧
+    ((propagate b cells ph inDir).outDir = 0 →
+      tauSum cells ph (propagate b cells ph inDir).visits = ph.tau
+      ∧ (propagate b cells ph inDir).tauLeft ≤ 0) :=
+  trav_tau_account b cells ph _ h.valid (entry_noPin b cells ph inDir h)
+
+/-- `propagate` stops inside iff the target is reached on the line through the block -/
+theorem propagate_stops_inside_iff (h : HypNoPin b cells ph inDir) :
+    (propagate b cells ph inDir).outDir = 0 ↔
+      ph.tau ≤ fullTauFrom b cells ph (initStNoPin b ph inDir) :=
+  trav_stops_inside_iff b cells ph _ h.valid (entry_noPin b cells ph inDir h)
+
+/-- exit geometry of `propagate` (as `exit_geometric`) -/
+theorem propagate_exit_geometric (h : HypNoPin b cells ph inDir)
+    (hout : (propagate b cells ph inDir).outDir ≠ 0) :
+    1 ≤ (propagate b cells ph inDir).outDir ∧ (propagate b cells ph inDir).outDir < 27 ∧
+    (∀ a,
+      (pinKind (propagate b cells ph inDir).outDir.toNat a = 1 →
+        (propagate b cells ph inDir).last.pos.get a = 0 ∧ ph.dir.get a < 0) ∧
+      (pinKind (propagate b cells ph inDir).outDir.toNat a = 2 →
+        (propagate b cells ph inDir).last.pos.get a = top b a ∧ 0 < ph.dir.get a) ∧
+      (pinKind (propagate b cells ph inDir).outDir.toNat a = 0 →
+        0 ≤ (propagate b cells ph inDir).last.pos.get a ∧
+        (propagate b cells ph inDir).last.pos.get a ≤ top b a ∧
+        (0 < ph.dir.get a → (propagate b cells ph inDir).last.pos.get a < top b a) ∧
+        (ph.dir.get a < 0 → 0 < (propagate b cells ph inDir).last.pos.get a))) ∧
+    compatOut (propagate b cells ph inDir).outDir.toNat (sgnOf ph.dir.x) (sgnOf ph.dir.y) (sgnOf ph.dir.z)
+      = true :=
+  trav_exit_geometric b cells ph _ h.valid (entry_noPin b cells ph inDir h) hout
+
+/-- **`propagate` is `interact` without the counters**: when the position handed over already
+sits where `update_photon_position` would put it, both return the same direction, position,
+remaining optical depth, and walk through the same cells with the same paths. -/
+theorem propagate_eq_interact (hpin : pinPos b inDir (relPos b ph.pos) = relPos b ph.pos) :
+    propagate b cells ph inDir = interact b cells ph inDir := by
+  unfold propagate
+  rw [← initSt_eq_noPin b ph inDir hpin]
+  rfl
+
+/-! #### `compute_optical_depth`: the whole line -/
+
+/-- **`compute_optical_depth` measures the whole line through the block.**  Its loop ends outside
+the block within the same bound; what it adds to the packet's optical depth is exactly
+`Σ κ·path` over its passes; the passes tile the line from the handed-over position to the final
+position cell by cell (`SegsFwd`); the final position is `start + (Σ path)·d`; the returned
+classification is one of `1..26`, the final position lies exactly on the faces it names,
+crossing them outwards, strictly inside on the other axes it moves along, and the classification
+passes `is_compatible_output_direction`. -/
+theorem cod_spec (h : HypNoPin b cells ph inDir) :
+    (computeOpticalDepth b cells ph inDir).finished = true ∧
+    (computeOpticalDepth b cells ph inDir).tau =
+      ph.tau + tauSum cells ph (computeOpticalDepth b cells ph inDir).last.out.reverse ∧
+    SegsFwd b ph (initStNoPin b ph inDir).pos 0 (computeOpticalDepth b cells ph inDir).last.out.reverse ∧
+    (∀ a, (computeOpticalDepth b cells ph inDir).last.pos.get a =
+        (initStNoPin b ph inDir).pos.get a
+          + pathSum (computeOpticalDepth b cells ph inDir).last.out.reverse * ph.dir.get a
+      ∧ (computeOpticalDepth b cells ph inDir).pos.get a =
+        (computeOpticalDepth b cells ph inDir).last.pos.get a + b.anchor.get a) ∧
+    1 ≤ (computeOpticalDepth b cells ph inDir).outDir ∧ (computeOpticalDepth b cells ph inDir).outDir < 27 ∧
+    (∀ a,
+      (pinKind (computeOpticalDepth b cells ph inDir).outDir.toNat a = 1 →
+        (computeOpticalDepth b cells ph inDir).last.pos.get a = 0 ∧ ph.dir.get a < 0) ∧
+      (pinKind (computeOpticalDepth b cells ph inDir).outDir.toNat a = 2 →
+        (computeOpticalDepth b cells ph inDir).last.pos.get a = top b a ∧ 0 < ph.dir.get a) ∧
+      (pinKind (computeOpticalDepth b cells ph inDir).outDir.toNat a = 0 →
+        0 ≤ (computeOpticalDepth b cells ph inDir).last.pos.get a ∧
+        (computeOpticalDepth b cells ph inDir).last.pos.get a ≤ top b a ∧
+        (0 < ph.dir.get a → (computeOpticalDepth b cells ph inDir).last.pos.get a < top b a) ∧
+        (ph.dir.get a < 0 → 0 < (computeOpticalDepth b cells ph inDir).last.pos.get a))) ∧
+    compatOut (computeOpticalDepth b cells ph inDir).outDir.toNat
+      (sgnOf ph.dir.x) (sgnOf ph.dir.y) (sgnOf ph.dir.z) = true := by
+  have he := entry_noPin b cells ph inDir h
+  obtain ⟨hfin, hnr, hF, hS⟩ := free_spec b cells ph h.valid _ he
+  have hx := exit_facts b cells ph h.valid _ hF.inCell hF.range hF.outFaces hS hnr
+  refine ⟨hfin, ?_, segs_reverse b ph _ _ hF.segs, fun a => ⟨?_, ?_⟩, hx.1, hx.2.1, hx.2.2.1, hx.2.2.2⟩
+  · show ph.tau + _ = _
+    rw [tauSum_reverse]; congr 1; exact hF.tauAcc
+  · rw [pathSum_reverse]; exact hF.onLine a
+  · simp [computeOpticalDepth]
+
+/-- the optical depth `compute_optical_depth` adds is the `fullTau` of the theorems above -/
+theorem cod_adds_fullTau :
+    (computeOpticalDepth b cells ph inDir).tau = ph.tau + fullTauFrom b cells ph (initStNoPin b ph inDir) :=
+  rfl
+
+/-- what `compute_optical_depth` adds does not depend on the packet's target optical depth -/
+theorem cod_independent_of_target (t : K) :
+    (computeOpticalDepth b cells { ph with tau := t } inDir).tau - t =
+      (computeOpticalDepth b cells ph inDir).tau - ph.tau := by
+  have key : ∀ (f : Nat) (s : St K), marchFree b cells { ph with tau := t } f s = marchFree b cells ph f s := by
+    intro f
+    induction f with
+    | zero => intro s; rfl
+    | succ f ih =>
+      intro s
+      unfold marchFree
+      have hs : stepFree b cells { ph with tau := t } s = stepFree b cells ph s := rfl
+      rw [hs, ih]
+  show t + (marchFree b cells { ph with tau := t } (fuel b.n) (initStNoPin b { ph with tau := t } inDir)).1.tauDone - t
+    = ph.tau + (marchFree b cells ph (fuel b.n) (initStNoPin b ph inDir)).1.tauDone - ph.tau
+  rw [key]
+  have : initStNoPin b { ph with tau := t } inDir = initStNoPin b ph inDir := rfl
+  rw [this]; ring
+
+/-- **`interact` stops inside exactly when its target does not exceed what
+`compute_optical_depth` measures** for the same packet (position already where
+`update_photon_position` puts it): the two routines of the code agree on where the packet ends. -/
+theorem interact_stops_iff_cod (h : Hyp b cells ph inDir)
+    (hpin : pinPos b inDir (relPos b ph.pos) = relPos b ph.pos) :
+    (interact b cells ph inDir).outDir = 0 ↔
+      ph.tau ≤ (computeOpticalDepth b cells ph inDir).tau - ph.tau := by
+  rw [stops_inside_iff b cells ph inDir h, cod_adds_fullTau]
+  unfold fullTau
+  rw [initSt_eq_noPin b ph inDir hpin]
+  constructor <;> intro h' <;> linarith
+
+/-- for a packet emitted inside the block (classification INSIDE) `update_photon_position` does
+nothing, so the two theorems above apply to every such packet -/
+theorem pinPos_inside (p : V3 K) : pinPos b 0 p = p := by
+  have hk : ∀ a, pinKind 0 a = 0 := fun a => by cases a <;> decide
+  unfold pinPos V3.of pinAxis
+  simp only [hk]
+  cases p; rfl
+
+/-! #### the hypotheses from the inputs of the constructor and of the call -/
+
+/-- `Hyp` from what a caller controls: a box with positive sides and at least one cell per axis
+(`DensitySubGrid(box, ncell)`), non-negative cell contents and cross sections, a non-zero
+direction, a positive target optical depth, a classification `0..26`, the position inside the
+closed box on the axes whose index is computed — and the magnitude condition on the `DBL_MAX`
+sentinel, the one hypothesis that is about the size of the numbers. -/
+theorem hyp_of_inputs (anchor side : V3 K) (n : V3 Nat)
+    (hs : ∀ a, 0 < side.get a) (hn : ∀ a, 0 < n.get a)
+    (hc : ∀ c, 0 ≤ (cells c).n ∧ 0 ≤ (cells c).xH ∧ 0 ≤ (cells c).xHe)
+    (hsig : 0 ≤ ph.sigH ∧ 0 ≤ ph.sigHe) (hd : ∃ a, ph.dir.get a ≠ 0) (ht : 0 < ph.tau)
+    (hbig : ∀ a, ph.dir.get a ≠ 0 → side.get a / (n.get a : K) < dblMax * |ph.dir.get a|)
+    (hdir : inDir < 27)
+    (hbox : ∀ a, idxKind inDir a = 0 →
+      anchor.get a ≤ ph.pos.get a ∧ ph.pos.get a ≤ anchor.get a + side.get a) :
+    Hyp (mkBlock anchor side n) cells ph inDir := by
+  obtain ⟨h1, h2, h3⟩ := mkBlock_ok anchor side n hs hn
+  have hcs : ∀ a, (mkBlock anchor side n).cs.get a = side.get a / (n.get a : K) := fun a => by
+    simp only [mkBlock, V3.get_of, ofNat_eq]
+  refine ⟨⟨h1, hn, hd, fun a ha => by rw [hcs a]; exact hbig a ha,
+    fun c => kappa_nonneg_of _ _ (hc c).1 (hc c).2.1 (hc c).2.2 hsig.1 hsig.2, ht⟩, ⟨hdir, h2, fun a hk => ?_⟩⟩
+  rw [h3 a]
+  have := hbox a hk
+  show 0 ≤ ph.pos.get a - anchor.get a ∧ ph.pos.get a - anchor.get a ≤ side.get a
+  constructor <;> linarith [this.1, this.2]
 
 /-! #### one pass through the loop body (the core the theorems above rest on) -/
 
@@ -471,5 +577,69 @@ theorem example_upper_boundary_outward :
     ((interact exBlock exCells (exPhotonUpper 1) 0).visits.map (fun v => (v.cell, v.path))) = [(1, 0)] ∧
     (interact exBlock exCells (exPhotonUpper 1) 0).tauLeft = 1 := by
   decide +kernel
+
+/-! ### non-vacuity for `propagate` / `compute_optical_depth` / `hyp_of_inputs` -/
+
+/-- the no-pin hypotheses hold for a packet emitted inside the block … -/
+theorem exHypNoPin (tau : ℚ) (ht : 0 < tau) : HypNoPin exBlock exCells (exPhoton tau) 0 := by
+  have h := exHyp tau ht
+  have hk : ∀ a, idxKind 0 a = 0 := fun a => by cases a <;> decide
+  exact ⟨h.valid, ⟨h.start.dir_ok, h.start.inv_ok, fun a hk' => h.start.owned a hk',
+    fun a h1 => absurd h1 (by rw [hk a]; decide), fun a h2 => absurd h2 (by rw [hk a]; decide)⟩⟩
+
+/-- … and for a packet handed over on the lower x face (22 = FACE_X_N) -/
+def exPhotonFace : Photon ℚ := { exPhoton 10 with pos := ⟨0, 1 / 2, 1 / 2⟩ }
+
+theorem exHypNoPinFace : HypNoPin exBlock exCells exPhotonFace 22 := by
+  have h := exHyp 10 (by norm_num)
+  have hs : ∀ a, (0 : ℚ) < (⟨2, 1, 1⟩ : V3 ℚ).get a := fun a => by cases a <;> norm_num [V3.get]
+  have hn : ∀ a, 0 < (⟨2, 1, 1⟩ : V3 Nat).get a := fun a => by cases a <;> norm_num [V3.get]
+  obtain ⟨h1, h2, h3⟩ := mkBlock_ok (⟨0, 0, 0⟩ : V3 ℚ) ⟨2, 1, 1⟩ ⟨2, 1, 1⟩ hs hn
+  have hcs : ∀ a, exBlock.cs.get a = 1 := fun a => by
+    cases a <;> simp [exBlock, mkBlock, V3.of, V3.get, ofNat, lit0, lit1] <;> norm_num
+  refine ⟨⟨h.valid.cs_pos, h.valid.n_pos, h.valid.moving, h.valid.big, h.valid.kappa_nonneg, by norm_num [exPhotonFace, exPhoton]⟩,
+    ⟨by norm_num, h2, fun a hk => ?_, fun a hk => ?_, fun a hk => ?_⟩⟩
+  · show 0 ≤ exPhotonFace.pos.get a - exBlock.anchor.get a ∧ _ ≤ top exBlock a
+    rw [show top exBlock a = (⟨2, 1, 1⟩ : V3 ℚ).get a from h3 a]
+    cases a <;> simp [exPhotonFace, exPhoton, exBlock, mkBlock, V3.get] <;> norm_num
+  · rw [hcs a]
+    cases a
+    · simp [exPhotonFace, exPhoton, exBlock, mkBlock, V3.get]
+    · exact absurd hk (by decide)
+    · exact absurd hk (by decide)
+  · cases a <;> exact absurd hk (by decide)
+
+/-- `compute_optical_depth` on the example: the line from (1/2,1/2,1/2) in +x has optical depth
+3/2, the packet's 10 becomes 23/2, it ends on FACE_X_P (21) at x = 2 -/
+theorem example_cod :
+    (computeOpticalDepth exBlock exCells (exPhoton 10) 0).tau = 23 / 2 ∧
+    (computeOpticalDepth exBlock exCells (exPhoton 10) 0).outDir = 21 ∧
+    (computeOpticalDepth exBlock exCells (exPhoton 10) 0).pos.x = 2 := by
+  decide +kernel
+
+/-- `propagate` from the lower x face: target 10 is not reached on a line of optical depth 2 -/
+theorem example_propagate :
+    (propagate exBlock exCells exPhotonFace 22).outDir = 21 ∧
+    (propagate exBlock exCells exPhotonFace 22).tauLeft = 8 ∧
+    ((propagate exBlock exCells exPhotonFace 22).visits.map (fun v => (v.cell, v.path))) = [(0, 1), (1, 1)] := by
+  decide +kernel
+
+/-- `hyp_of_inputs` is applicable (unit box of one cell, packet in the centre) -/
+example : Hyp (mkBlock (⟨0, 0, 0⟩ : V3 ℚ) ⟨1, 1, 1⟩ ⟨1, 1, 1⟩) exCells
+    { exPhoton 1 with pos := ⟨1 / 2, 1 / 2, 1 / 2⟩ } 0 := by
+  refine hyp_of_inputs _ _ _ _ _ _ (fun a => by cases a <;> norm_num [V3.get])
+    (fun a => by cases a <;> norm_num [V3.get]) (fun c => by norm_num [exCells])
+    (by norm_num [exPhoton]) ⟨.x, by norm_num [exPhoton, V3.get]⟩ (by norm_num [exPhoton]) (fun a ha => ?_)
+    (by norm_num) (fun a _ => by cases a <;> norm_num [exPhoton, V3.get])
+  cases a <;> simp [exPhoton, V3.get] at ha ⊢
+  unfold dblMax; norm_num
+
+/-- `interact_stops_iff_cod` on the example (entry INSIDE): the target 1/4 is below the 3/2 that
+`compute_optical_depth` measures, and `interact` indeed stops inside -/
+example : (interact exBlock exCells (exPhoton (1 / 4)) 0).outDir = 0 :=
+  (interact_stops_iff_cod exBlock exCells (exPhoton (1 / 4)) 0 (exHyp _ (by norm_num))
+    (pinPos_inside exBlock _)).mpr (by
+      have : (computeOpticalDepth exBlock exCells (exPhoton (1 / 4)) 0).tau = 7 / 4 := by decide +kernel
+      rw [this]; norm_num [exPhoton])
 
 end CMacVerif.RayMarch
